@@ -8,8 +8,11 @@
     IMPL-MODEL: transliterations of the Rust loops of
       crates/jrsonnet-stdlib/src/arrays.rs  builtin_any, builtin_all, builtin_member, builtin_contains,
                                             builtin_count, builtin_find, builtin_remove, builtin_foldl,
-                                            builtin_foldr, builtin_map (MappedArray::get), builtin_reverse
-                                            (ReverseArray::get)
+                                            builtin_foldr, builtin_map / builtin_map_with_index (MappedArray::get),
+                                            builtin_filter (ArrValue::filter), builtin_filter_map,
+                                            builtin_flatmap (array arm), builtin_reverse (ReverseArray::get)
+                                            — foldl / foldr / map / flatMap as of the fixes 762ca42, 9dc676b,
+                                            9d0c0a4 (the loops before them are kept as *_old)
       crates/jrsonnet-stdlib/src/sort.rs    array_top1, builtin_min_array, builtin_max_array
       crates/jrsonnet-stdlib/src/misc.rs    builtin_starts_with, builtin_ends_with (array arms),
       crates/jrsonnet-evaluator/src/val.rs  equals (array arm)
@@ -26,6 +29,10 @@
                                                  else aux(func, arr, func(running, arr[idx]), idx + 1) tailstrict
       foldr     = the same from length - 1 down to 0 with func(arr[idx], running)
       map       = std.makeArray(std.length(arr), function(i) func(arr[i]))
+      mapWithIndex = std.makeArray(std.length(arr), function(i) func(i, arr[i]))
+      filter    = the predicate applied to every element thunk in order, kept elements stay thunks (native)
+      filterMap = std.map(map_func, std.filter(filter_func, arr))
+      flatMap   = std.flattenArrays(std.makeArray(std.length(arr), function(i) func(arr[i])))
       reverse   = std.makeArray(l, function(i) arr[l - i - 1])
       minArray  = if length == 0 then onEmpty else foldl(minFn, arr, arr[0])
                   with minFn(a, b) = if std.__compare(keyF(a), keyF(b)) > 0 then b else a   (max: < 0)
@@ -209,15 +216,24 @@ Section Folds.
   Variable fl : B -> option A -> option B.      (* func(running, arr[idx]) *)
   Variable fr : option A -> B -> option B.      (* func(arr[idx], running) *)
 
-  (** builtin_foldl: for i in arr.iter() { acc = func.call(acc, i?)?; } — the element is forced
-      (`i?`, parameter type Val) before the function runs *)
+  (** builtin_foldl (since fix 762ca42): for i in arr.iter_lazy() { acc = func.call(acc, i)?; } — the
+      element THUNK is handed to the function *)
   Fixpoint foldl_impl (l : list (option A)) (acc : B) : option B :=
     match l with
     | [] => Some acc
-    | t :: r => v <- t ;; a <- fl acc (Some v) ;; foldl_impl r a
+    | t :: r => a <- fl acc t ;; foldl_impl r a
     end.
-  (** builtin_foldr: arr.iter().rev() *)
+  (** builtin_foldr: arr.iter_lazy().rev() *)
   Definition foldr_impl (l : list (option A)) (acc : B) : option B :=
+    fold_left (fun (o : option B) t => a <- o ;; fr t a) (rev l) (Some acc).
+
+  (** HISTORICAL (before 762ca42): `func.call(acc, i?)` forced the element first *)
+  Fixpoint foldl_impl_old (l : list (option A)) (acc : B) : option B :=
+    match l with
+    | [] => Some acc
+    | t :: r => v <- t ;; a <- fl acc (Some v) ;; foldl_impl_old r a
+    end.
+  Definition foldr_impl_old (l : list (option A)) (acc : B) : option B :=
     fold_left (fun (o : option B) t => a <- o ;; v <- t ;; fr (Some v) a) (rev l) (Some acc).
 
   Fixpoint foldl_aux (arr : list (option A)) (n idx : nat) (running : B) : option B :=
@@ -243,17 +259,19 @@ Section Folds.
     end.
   Definition foldr_spec (arr : list (option A)) (init : B) : option B := foldr_aux arr (length arr) init.
 
-  (** KNOWN CLASS (foldl, foldr, map, minArray/maxArray): an element whose evaluation fails — the
-      code forces it before calling the function, the definition hands the function a thunk *)
+  (** KNOWN CLASS (minArray / maxArray; until 762ca42 / 9dc676b also foldl, foldr, map): an element whose
+      evaluation fails — array_top1 forces it (`item?`) before calling keyF, the definition hands keyF a thunk *)
   Definition has_failing (l : list (option A)) : bool := existsb (fun t => negb (defined t)) l.
 End Folds.
 
 Section MapRev.
   Context {A B : Type}.
   Variable f : option A -> option B.            (* func(arr[i]) as a function of the thunk *)
-  (** builtin_map -> MappedArray::get(i): self.inner.get(i) (forced) .and_then(|r| evaluate(i, r));
-      the result is an array of thunks *)
-  Definition map_impl (l : list (option A)) : list (option B) :=
+  (** builtin_map -> MappedArray::get(i) (since fix 9dc676b): evaluate(i, self.inner.get_lazy(i)) — the
+      mapper gets the element's thunk; the result is an array of thunks *)
+  Definition map_impl (l : list (option A)) : list (option B) := map f l.
+  (** HISTORICAL (before 9dc676b): self.inner.get(i) (forced) .and_then(|r| evaluate(i, r)) *)
+  Definition map_impl_old (l : list (option A)) : list (option B) :=
     map (fun t => v <- t ;; f (Some v)) l.
   Definition make_array {X} (n : nat) (g : nat -> X) : list X := map g (seq 0 n).
   Definition map_spec (l : list (option A)) : list (option B) :=
@@ -267,6 +285,79 @@ Section MapRev.
   Definition reverse_spec (l : list A) : list (option A) :=
     make_array (length l) (fun i => nth_error l (length l - i - 1)).
 End MapRev.
+
+(* ================================================================================= *)
+(** * mapWithIndex / filter / filterMap / flatMap over thunks *)
+Section MapFilterFlat.
+  Context {A B : Type}.
+  Variable fi : nat -> option A -> option B.     (* func(i, arr[i]) *)
+  Variable f : option A -> option B.             (* map_func(x) *)
+  Variable p : option A -> option bool.          (* filter_func(x): FilterFunc = NativeFn!((Thunk<Val>) -> bool) *)
+
+  (** builtin_map_with_index -> MappedArray (ArrayMapper::WithIndex): element i = f.call(index, inner.get_lazy(i)) *)
+  Fixpoint mapi_impl (i : nat) (l : list (option A)) : list (option B) :=
+    match l with [] => [] | t :: r => fi i t :: mapi_impl (S i) r end.
+  (** std.jsonnet: std.makeArray(std.length(arr), function(i) func(i, arr[i])) *)
+  Definition mapi_spec (l : list (option A)) : list (option B) :=
+    make_array (length l) (fun i => match nth_error l i with Some t => fi i t | None => None end).
+
+  (** ArrValue::filter: first an EAGER pass over self.iter() — a failing element leaves it (`break 'eager`),
+      a failing predicate returns the error — then, if left, the lazy pass over iter_lazy() from the start *)
+  Inductive eager_res := EBreak | EErr | EOk (out : list (option A)).
+  Fixpoint filter_eager (l : list (option A)) : eager_res :=
+    match l with
+    | [] => EOk []
+    | None :: _ => EBreak
+    | Some v :: r =>
+        match p (Some v) with
+        | None => EErr
+        | Some b => match filter_eager r with
+                    | EOk out => EOk (if b then Some v :: out else out)
+                    | e => e
+                    end
+        end
+    end.
+  Definition filter_impl (l : list (option A)) : option (list (option A)) :=
+    match filter_eager l with
+    | EOk out => Some out
+    | EErr => None
+    | EBreak => filter_strict p l
+    end.
+  (** SPEC std.filter (native in the reference implementations): the predicate is applied to every
+      element, in order; the kept elements stay thunks *)
+  Definition filter_spec (l : list (option A)) : option (list (option A)) := filter_strict p l.
+
+  (** builtin_filter_map: arr.filter(filter_func)?.map(map_func);
+      std.jsonnet: std.map(map_func, std.filter(filter_func, arr)) *)
+  Definition filter_map_impl (l : list (option A)) : option (list (option B)) :=
+    r <- filter_impl l ;; Some (map_impl f r).
+  Definition filter_map_spec (l : list (option A)) : option (list (option B)) :=
+    r <- filter_spec l ;; Some (map_spec f r).
+
+  (** builtin_flatmap, array arm (since fix 9d0c0a4).  The function's result: [None] an error (or a value that
+      is neither an array nor null), [Some None] null, [Some (Some o)] an array of thunks. *)
+  Variable ff : option A -> option (option (list (option B))).
+  Fixpoint flatmap_impl (l : list (option A)) : option (list (option B)) :=
+    match l with
+    | [] => Some []
+    | el :: r =>
+        o <- ff el ;; rest <- flatmap_impl r ;;
+        Some (match o with Some items => items ++ rest | None => rest end)
+    end.
+  (** std.jsonnet: std.flattenArrays(std.makeArray(std.length(arr), function(i) func(arr[i]))),
+      flattenArrays = foldl(function(a, b) a + b, arrs, []): every func(arr[i]) is evaluated, in order, and
+      must be an array (`[] + null` is an error) *)
+  Fixpoint flatten_strict (arrs : list (option (option (list (option B))))) (a : list (option B)) : option (list (option B)) :=
+    match arrs with
+    | [] => Some a
+    | t :: r => o <- t ;; b <- o ;; flatten_strict r (a ++ b)
+    end.
+  Definition flatmap_spec (l : list (option A)) : option (list (option B)) :=
+    flatten_strict (make_array (length l) (fun i => match nth_error l i with Some t => ff t | None => None end)) [].
+  (** outside the documented domain (jrsonnet's own extension): the function returns null *)
+  Definition returns_null (l : list (option A)) : bool :=
+    existsb (fun t => match ff t with Some None => true | _ => false end) l.
+End MapFilterFlat.
 
 (* ================================================================================= *)
 (** * minArray / maxArray *)
@@ -348,6 +439,26 @@ Definition lapply (f : fn) (t : option val) : option val :=
   | FErr => None
   | _ => v <- t ;; apply f v
   end.
+Definition lpred (f : fn) (t : option val) : option bool := v <- lapply f t ;; as_bool v.
+(** functions for std.flatMap; Jsonnet text in props/c10.py LFM_JS *)
+Inductive lfm :=
+| LMWrap      (* function(x) [x]                — the element stays a thunk *)
+| LMDup       (* function(x) [x, x] *)
+| LMEmpty     (* function(x) [] *)
+| LMErrElem   (* function(x) [error "boom"]     — an array with a failing element *)
+| LMIfNum     (* function(x) if std.isNumber(x) then [x] else []     — evaluates x *)
+| LMErr       (* function(x) error "boom" *)
+| LMNum.      (* function(x) 1                  — not an array *)
+Definition lflat (g : lfm) (t : option val) : option (option (list (option val))) :=
+  match g with
+  | LMWrap => Some (Some [t])
+  | LMDup => Some (Some [t; t])
+  | LMEmpty => Some (Some [])
+  | LMErrElem => Some (Some [None])
+  | LMIfNum => v <- t ;; Some (Some (if is_num v then [Some v] else []))
+  | LMErr => None
+  | LMNum => None
+  end.
 Definition lkeyfn (k : option fn) (t : option val) : option val :=
   match k with None => t | Some f => lapply f t end.
 
@@ -362,6 +473,10 @@ Inductive lcall :=
 | LFoldl (f : lfn2) (l : list (option val)) (init : val)
 | LFoldr (f : lfn2) (l : list (option val)) (init : val)
 | LMap (f : fn) (l : list (option val))
+| LMapWithIndex (f : lfn2) (l : list (option val))
+| LFilter (p : fn) (l : list (option val))
+| LFilterMap (p f : fn) (l : list (option val))
+| LFlatMap (g : lfm) (l : list (option val))
 | LReverse (l : list (option val))
 | LMinArray (l : list (option val)) (k : option fn) (on_empty : option (option val))
 | LMaxArray (l : list (option val)) (k : option fn) (on_empty : option (option val))
@@ -391,6 +506,10 @@ Definition limpl (c : lcall) : option lout :=
   | LFoldl f l init => lval (foldl_impl (fun acc t => lapply2 f (Some acc) t) l init)
   | LFoldr f l init => lval (foldr_impl (fun t acc => lapply2 f t (Some acc)) l init)
   | LMap f l => Some (LA (map_impl (lapply f) l))
+  | LMapWithIndex f l => Some (LA (mapi_impl (fun i t => lapply2 f (Some (VNum (Z.of_nat i))) t) 0 l))
+  | LFilter p l => larr (filter_impl (lpred p) l)
+  | LFilterMap p f l => larr (filter_map_impl (lapply f) (lpred p) l)
+  | LFlatMap g l => larr (flatmap_impl (lflat g) l)
   | LReverse l => Some (LA (map jn (reverse_impl l)))
   | LMinArray l k oe => lval (top1_impl (lkeyfn k) cmp_val Lt l oe)
   | LMaxArray l k oe => lval (top1_impl (lkeyfn k) cmp_val Gt l oe)
@@ -409,6 +528,10 @@ Definition lspec (c : lcall) : option lout :=
   | LFoldl f l init => lval (foldl_spec (fun acc t => lapply2 f (Some acc) t) l init)
   | LFoldr f l init => lval (foldr_spec (fun t acc => lapply2 f t (Some acc)) l init)
   | LMap f l => Some (LA (map_spec (lapply f) l))
+  | LMapWithIndex f l => Some (LA (mapi_spec (fun i t => lapply2 f (Some (VNum (Z.of_nat i))) t) l))
+  | LFilter p l => larr (filter_spec (lpred p) l)
+  | LFilterMap p f l => larr (filter_map_spec (lapply f) (lpred p) l)
+  | LFlatMap g l => larr (flatmap_spec (lflat g) l)
   | LReverse l => Some (LA (map jn (reverse_spec l)))
   | LMinArray l k oe => lval (top1_spec (lkeyfn k) cmp_val Gt l oe)
   | LMaxArray l k oe => lval (top1_spec (lkeyfn k) cmp_val Lt l oe)
@@ -417,12 +540,11 @@ Definition lspec (c : lcall) : option lout :=
   end.
 
 (** the known classes, as numbers for the checker: 0 = none,
-    1 = C10-member-remove-stop-at-first-match, 2 = C10-callback-element-forced,
-    3 = C10-minarray-first-key-not-compared *)
+    1 = C10-member-remove-stop-at-first-match, 2 = C10-callback-element-forced (minArray / maxArray only
+    since 762ca42 / 9dc676b), 3 = C10-minarray-first-key-not-compared *)
 Definition lknown (c : lcall) : nat :=
   match c with
   | LMember l x | LRemove l x => if err_after_match eqv l x then 1 else 0
-  | LFoldl _ l _ | LFoldr _ l _ | LMap _ l => if has_failing l then 2 else 0
   | LMinArray l k _ | LMaxArray l k _ =>
       if has_failing l then 2 else if first_key_incomparable (lkeyfn k) cmp_val l then 3 else 0
   | _ => 0
